@@ -56,8 +56,18 @@ def theorem_names():
     return [ns + "." + m for m in re.findall(r"^theorem\s+(C05_\w+)", src, re.M)]
 
 
+C05_FILES = ["c05_gen.go", "c05_oracle.go", "c05_shrink.go", "c05_src.go", "c05_streams.go", "c05_virdec.go"]
+
+
 def build_c05_harness():
-    return build_go("verifharness", "harness", files=HARNESS_BASE + ["c05_*.go"], tag="c05")
+    return build_go("verifharness", "harness", files=HARNESS_BASE + C05_FILES, tag="c05")
+
+
+def build_c05_lab_harness():
+    """optional second binary: the C05 streams plus the lab's source-schema generator (src_*.go).
+    The lab files belong to another builder; when they do not compile the lab-fed stream is skipped."""
+    return build_go("verifharness", "harness", files=HARNESS_BASE + C05_FILES + ["c05_lab.go", "src_*.go", "lab_pipeline.go"],
+                    tag="c05lab")
 
 
 def case_of(row):
@@ -228,7 +238,7 @@ def main():
     load_known(c)
     c.trusted = [
         "Lean 4.33 kernel; axioms per theorem are listed in obligation_list (subset of propext, Classical.choice, Quot.sound)",
-        "hand-written Lean models: Cog/Closed/{Basic,Reach,FilterSchemas,InferEntrypoint}.lean (this property), Cog/Xform/* (C15 pass models: rename_object, prefix, duplicate_object, unspec, replace_reference) and Cog/Passes/* (C06 pass models), each tied by a differential stream (c05-nameops, c05-filter here; C06's lpass/chain streams for the chain passes)",
+        "hand-written Lean models: Cog/Closed/{Basic,Reach,FilterSchemas,InferEntrypoint}.lean (this property), Cog/Xform/* (C15 pass models: rename_object, prefix, duplicate_object, unspec, replace_reference), Cog/Passes/* (C06 pass models of the 15 chain passes) and Cog/Builder/FromAST.lean (C16), tied by differential streams: c05-nameops, c05-filter, c05-chainmodel (whole chains + InferEntrypoint) here; per-pass and FromAST streams in the C06 / C16 checks",
         "lean/Cog/Gen/Chains.lean regenerated from internal/jennies/*/jennies.go by extract/xchains (C06's extractor)",
         "VIR encoder/decoder pair (harness/vir.go, harness/c05_virdec.go, lean/Cog/IR/Vir.lean): the two `Closed` implementations see the same text; PassesTrail is dropped; of several DisjunctionType hint payloads on one struct only the first is transmitted",
         "the Go oracle harness/c05_oracle.go (Closed, reach, builder targets) and the generators harness/c05_gen.go, c05_src.go",
@@ -294,6 +304,17 @@ def main():
               nontrivial=lambda r: r[1].startswith("false"))
     S.process("c05-parsers", harness(hb, "c05-parsers", n=n(400, 4000), seed=seed, tier=tier, work=WORK),
               nontrivial=lambda r: r[1].startswith(("true", "false")))
+    hlab, laberr = build_c05_lab_harness()
+    c.cov["lab_generator_available"] = hlab is not None
+    if hlab is not None:
+        try:
+            S.process("c05-parsers-lab", harness(hlab, "c05-parsers-lab", n=n(120, 1500), seed=seed, work=WORK),
+                      nontrivial=lambda r: r[1].startswith(("true", "false")))
+        except Exception as e:   # the lab generator is not this property's code: never fatal
+            c.cov["lab_generator_available"] = False
+            log("c05-parsers-lab skipped:", str(e)[:500])
+    else:
+        log("lab generator does not build, c05-parsers-lab skipped:", laberr[-500:])
     # the pass models the chain theorems are stated over, on THIS property's inputs
     cm = harness(hb, "c05-chainmodel", n=n(150, 2500), seed=seed, tier=tier, work=WORK)
     nd = drv([r[0] for r in cm])
